@@ -135,11 +135,15 @@ def _sel(tree):
                    and _is_name(n.value, 'ENTIRE_RECORD') for n in g.body)
     if not start_ok:
         raise TieBroken('get_sel_entry does not start with max_req_len = ENTIRE_RECORD')
+    floor, floor_test = _sel_floor(g)
     cmp_entire, full, step, rec, shrink = [], [], [], [], []
     for n in ast.walk(g):
         if isinstance(n, ast.Compare) and len(n.ops) == 1 and _is_self_attr(n.left, 'max_req_len'):
+            if n is floor_test:
+                continue
             if not isinstance(n.ops[0], (ast.Eq, ast.NotEq)):
-                raise TieBroken('max_req_len compared with something other than == / !=')
+                raise TieBroken('max_req_len compared with something other than == / != (or the floor test '
+                                'directly behind the decrement)')
             cmp_entire.append(_int(n.comparators[0], 'max_req_len comparison'))
         if isinstance(n, ast.Assign) and len(n.targets) == 1 and _is_self_attr(n.targets[0], 'max_req_len') \
                 and isinstance(n.value, ast.Constant):
@@ -183,6 +187,7 @@ def _sel(tree):
         raise TieBroken('get_sel_entry compares max_req_len with %s but starts with %s' % (cmp_entire, entire))
 
     c = _method(tree, 'Sel', 'get_and_clear_sel_entry', rel)
+    budget, gac_retry = _sel_budget(c)
     cancel = [_cc(n.comparators[0], 'cancel code') for n in ast.walk(c)
               if isinstance(n, ast.Compare) and len(n.ops) == 1 and isinstance(n.ops[0], ast.Eq)
               and isinstance(n.left, ast.Attribute) and n.left.attr == 'cc']
@@ -200,12 +205,84 @@ def _sel(tree):
     return {'entire': entire, 'full': _one(full, 'fallback length'), 'recLen': _one(rec, 'record length'),
             'step': _one(step, 'max_req_len decrement'), 'ccShrink': _one(shrink, 'shrink code'),
             'ccCancel': _one(cancel, 'cancel code'), 'first': ids['START_SEL_RECORD_ID'],
-            'last': ids['END_SEL_RECORD_ID']}
+            'last': ids['END_SEL_RECORD_ID'], 'floor': floor, 'budget': gac_retry if budget else None}
+
+
+def _is_retry_error(node):
+    """`raise RetryError()` / `raise errors.RetryError()`"""
+    if not (isinstance(node, ast.Raise) and node.cause is None and isinstance(node.exc, ast.Call)
+            and not node.exc.args and not node.exc.keywords):
+        return False
+    f = node.exc.func
+    return _is_name(f, 'RetryError') or (isinstance(f, ast.Attribute) and f.attr == 'RetryError'
+                                         and _is_name(f.value, 'errors'))
+
+
+def _blocks(fn):
+    for n in ast.walk(fn):
+        for field in ('body', 'orelse', 'finalbody'):
+            b = getattr(n, field, None)
+            if isinstance(b, list):
+                yield b
+
+
+def _sel_floor(g):
+    """What follows `self.max_req_len -= 1` in its block: nothing (as shipped: floor None) or
+    `if self.max_req_len <= F: raise RetryError()` (`< F` is read as `<= F-1`).  -> (F | None, test node)"""
+    hits = [(b, i) for b in _blocks(g) for i, st in enumerate(b)
+            if isinstance(st, ast.AugAssign) and _is_self_attr(st.target, 'max_req_len')]
+    if len(hits) != 1:
+        raise TieBroken('get_sel_entry: expected exactly one `self.max_req_len -= …`')
+    b, i = hits[0]
+    rest = b[i + 1:]
+    if not rest:
+        return None, None
+    st = rest[0]
+    if len(rest) != 1 or not (isinstance(st, ast.If) and not st.orelse and len(st.body) == 1
+                              and _is_retry_error(st.body[0]) and isinstance(st.test, ast.Compare)
+                              and len(st.test.ops) == 1 and _is_self_attr(st.test.left, 'max_req_len')
+                              and isinstance(st.test.ops[0], (ast.LtE, ast.Lt))):
+        raise TieBroken('get_sel_entry: the decrement of max_req_len is followed by something other than '
+                        '`if self.max_req_len <= N: raise RetryError()`')
+    f = _int(st.test.comparators[0], 'max_req_len floor')
+    return (f if isinstance(st.test.ops[0], ast.LtE) else f - 1), st.test
+
+
+def _sel_budget(c):
+    """get_and_clear_sel_entry: `while True:` without a retry parameter (as shipped) -> (False, 0), or
+    `retry=N` with `while retry > 0: retry -= 1 …` ending in `raise RetryError()` -> (True, N)."""
+    body = [st for st in c.body if not (isinstance(st, ast.Expr) and isinstance(st.value, ast.Constant))]
+    if not body or not isinstance(body[0], ast.While):
+        raise TieBroken('get_and_clear_sel_entry does not consist of one while loop')
+    w = body[0]
+    names = [a.arg for a in c.args.args]
+    if isinstance(w.test, ast.Constant) and w.test.value is True:
+        if names != ['self', 'record_id'] or len(body) != 1 or w.orelse:
+            raise TieBroken('get_and_clear_sel_entry: `while True` with unexpected parameters / trailing statements')
+        return False, 0
+    if names != ['self', 'record_id', 'retry'] or len(c.args.defaults) != 1:
+        raise TieBroken('get_and_clear_sel_entry: parameters are not (self, record_id, retry=N)')
+    n = _int(c.args.defaults[0], 'default retry of get_and_clear_sel_entry')
+    t = w.test
+    if not (isinstance(t, ast.Compare) and len(t.ops) == 1 and isinstance(t.ops[0], ast.Gt) and _is_name(t.left, 'retry')
+            and isinstance(t.comparators[0], ast.Constant) and t.comparators[0].value == 0):
+        raise TieBroken('get_and_clear_sel_entry: loop test is not `retry > 0`')
+    first = w.body[0] if w.body else None
+    if not (isinstance(first, ast.AugAssign) and _is_name(first.target, 'retry') and isinstance(first.op, ast.Sub)
+            and isinstance(first.value, ast.Constant) and first.value.value == 1):
+        raise TieBroken('get_and_clear_sel_entry: the loop body does not start with `retry -= 1`')
+    if any(isinstance(x, (ast.Assign, ast.AugAssign)) and any(_is_name(tg, 'retry') for tg in (
+            x.targets if isinstance(x, ast.Assign) else [x.target])) for x in ast.walk(w) if x is not first):
+        raise TieBroken('get_and_clear_sel_entry: retry is assigned elsewhere in the loop')
+    tail = list(w.orelse) + body[1:]
+    if len(tail) != 1 or not _is_retry_error(tail[0]):
+        raise TieBroken('get_and_clear_sel_entry: the exhausted loop is not followed by `raise RetryError()`')
+    return True, n
 
 
 DEFAULTS = {'fru': {'initReq': 32, 'dec': 2, 'caught': [202, 200, 201], 'writeLen': 16},
             'sel': {'entire': 255, 'full': 16, 'recLen': 16, 'step': 1, 'ccShrink': 202, 'ccCancel': 197,
-                    'first': 0, 'last': 65535}}
+                    'first': 0, 'last': 65535, 'floor': 0, 'budget': 5}}
 
 
 def extract(need=('fru', 'sel')):
@@ -242,10 +319,17 @@ def fruCfg : PyIpmi.FruXfer.Cfg := ⟨%d, %d, [%s], %d⟩
 get_and_clear_sel_entry: cancel code; sel_entries: START / END record id -/
 def selCfg : PyIpmi.SelXfer.Cfg := ⟨%d, %d, %d, %d, %d, %d, %d, %d⟩
 
+/-- get_sel_entry: floor of max_req_len behind the decrement (`if self.max_req_len <= F: raise
+RetryError()`; none = the length is lowered without end); get_and_clear_sel_entry(record_id, retry=N):
+`while retry > 0: retry -= 1 …` ending in RetryError (none = `while True`, no such parameter) -/
+def selVariant : PyIpmi.SelXfer.Variant := ⟨%s, %s⟩
+
 end PyIpmi.Gen.Loops10
 ''' % (f['initReq'], f['dec'], f['writeLen'],
        f['initReq'], f['dec'], ', '.join(str(x) for x in f['caught']), f['writeLen'],
-       s['entire'], s['full'], s['recLen'], s['step'], s['ccShrink'], s['ccCancel'], s['first'], s['last'])
+       s['entire'], s['full'], s['recLen'], s['step'], s['ccShrink'], s['ccCancel'], s['first'], s['last'],
+       'none' if s['floor'] is None else 'some (%d)' % s['floor'],
+       'none' if s['budget'] is None else 'some %d' % s['budget'])
 
 
 def generate(need=('fru', 'sel')):
